@@ -10,6 +10,7 @@ import (
 	"os"
 	"os/exec"
 	"path/filepath"
+	"runtime"
 	"strconv"
 	"strings"
 	"time"
@@ -94,7 +95,9 @@ func init() {
 		func() {
 			defer func() {
 				if r := recover(); r != nil {
-					if e, ok := r.(error); ok && errors.Is(e, flag.ErrHelp) {
+					if _, ok := r.(runtime.Error); ok {
+						outcome = "panic" // (a run-time panic inside a flag's Set is an error value as well)
+					} else if e, ok := r.(error); ok && errors.Is(e, flag.ErrHelp) {
 						outcome = "help"
 					} else if _, ok := r.(error); ok {
 						outcome = "exit2"
